@@ -30,6 +30,7 @@ fn main() {
         "replay" => replay(&a),
         "modeltest" => modeltest(&a.rest),
         "flushdemo" => flushdemo(),
+        "modelonly" => modelonly(&a.rest),
         _ => vhcore::machinery_failure("usage: c24 check C24 --tier quick|thorough"),
     };
     std::process::exit(code);
@@ -579,4 +580,34 @@ fn flushdemo() -> i32 {
     } else {
         0
     }
+}
+
+/// Debug aid: explore the (fixed-protocol) model alone for all scripts up to n events.
+fn modelonly(args: &[String]) -> i32 {
+    use vh_lsp::c24model as mf;
+    let n: usize = args.first().and_then(|s| s.parse().ok()).unwrap_or(3);
+    let checks: u8 = args.get(1).and_then(|s| s.parse().ok()).unwrap_or(6);
+    let mut bad = 0;
+    for sc in scripts(n) {
+        let m = mf::Model {
+            script: sc.iter().map(|e| match e { Ev::Open => mf::Ev::Open, Ev::Change => mf::Ev::Change, Ev::Save => mf::Ev::Save, Ev::Wait => mf::Ev::Wait }).collect(),
+            abort_checks: checks,
+        };
+        let ex = mf::explore(&m, 0);
+        let vs: Vec<String> = ex.witnesses.iter().map(|(v, _)| format!("{v:?}")).collect();
+        let violating = ex.witnesses.iter().any(|(v, _)| !v.is_empty());
+        if violating {
+            bad += 1;
+        }
+        println!("{} states={} transitions={} terminals={} verdict-sets={}", script_name(&sc), ex.states, ex.transitions, ex.terminals, vs.join(" "));
+        if violating {
+            for (v, p) in &ex.witnesses {
+                if !v.is_empty() {
+                    println!("   {v:?}: {}", p.join(" "));
+                }
+            }
+        }
+    }
+    println!("scripts with violating terminal states: {bad}");
+    0
 }
